@@ -35,7 +35,7 @@ type vfE6Srv struct {
 }
 
 func vfE6NewSrv() *vfE6Srv {
-	ln, err := net.Listen("tcp", "127.0.0.1:0")
+	ln, err := vfListen()
 	if err != nil {
 		panic(err)
 	}
@@ -163,7 +163,8 @@ func TestVerifE6PeerDrive(t *testing.T) {
 	trials := vfEnvInt("VERIF_N", 60)
 	opts := NewOptions()
 	opts.Logger = test.NewTestLogger(nilTB{})
-	opts.TCPAddress, opts.HTTPAddress, opts.BroadcastAddress = "127.0.0.1:0", "127.0.0.1:0", "127.0.0.1"
+	opts.TCPAddress, opts.HTTPAddress = vfLoop2()
+	opts.BroadcastAddress = vfLoopHost(opts.TCPAddress)
 	opts.DataPath = t.TempDir()
 	n, err := New(opts)
 	if err != nil {
@@ -172,7 +173,7 @@ func TestVerifE6PeerDrive(t *testing.T) {
 	go n.Main()
 	defer n.Exit()
 	hostname, _ := os.Hostname()
-	dead := vfE6FreeAddr() // nothing listens here: the dial is refused
+	dead := vfLoopDead() // nothing listens here (private IP, port 1): the dial is refused
 	stats := map[string]int{}
 	fails := 0
 	bits := func(b []bool) string {
